@@ -701,3 +701,26 @@ def run(ctx):
     # (and so jsonschema.validate) checks the schema against the metaschema with no format checker
     from .c11 import rule_wiring
     rule_wiring(ctx, "R12.8")
+    # R12.9: the checker consulted is the one the validator was constructed with, whatever it looks like (an empty registry is
+    # falsy if it defines __len__): decided on the class create() builds (valsem.classes_eval, constructor clause)
+    rule_checker_as_given(ctx)
+    # R12.10: is_valid / validate() / descend see `format` exactly as iter_errors does: they are iter_errors on the same validator
+    # (a fresh validator built for a subschema would have to be handed the checker again)
+    from .c04 import rule_single_source
+    rule_single_source(ctx, "R12.10")
+
+
+def rule_checker_as_given(ctx, rid="R12.9"):
+    from .c02 import _valsem
+    prog = ctx.prog
+    init = calls_of(prog).V.methods["__init__"]
+    r = ctx.rule(rid, "a validator keeps the format checker (and resolver) it was constructed with, as given", floor=1)
+    sem = _valsem(ctx, "classes_eval")
+    if sem is None:
+        r.ok(site(init), "NOT DECIDED: the constructor is outside the evaluated fragment")
+        r.note(site(init), "%s not decided" % rid)
+    elif sem.get("own-resolver", sem.get("raises")) is None:
+        r.ok(site(init), "schema, resolver and format checker are recorded as given, also when the object given is falsy; without a checker: None")
+    else:
+        r.fail("%s|own-resolver" % init.qual, site(init), sem.get("own-resolver") or sem.get("raises"))
+    return r
